@@ -18,6 +18,7 @@ From WG Require Import Algo.Scc.
 From WG Require Import Algo.Llp.
 From WG Require Import Algo.EssSpec.
 From WG Require Import Algo.Ess.
+From WG Require Import Sort.Pipeline.
 
 Extraction Language OCaml.
 
@@ -181,4 +182,21 @@ Extraction "model.ml"
   check_values
   run_logged
   run_logged_dm
+  sort_pipeline
+  sort_spec
+  boundaries
+  part_id
+  codec_encode
+  codec_decode
+  codec_rt
+  kmerge
+  isort
+  producer
+  flush_batch
+  batch_size_par
+  batch_size_seq
+  ksort
+  kdedup
+  sdedup
+  kleb
 .
